@@ -320,7 +320,10 @@ LayoutItems(ev) ==
         Item("RepIdx", eq(ev.RepIdx, PrefixSums(Rep, P))), Item("TraIdx", eq(ev.TraIdx, PrefixSums(MatN, P))),
         Item("AlgIdx", eq(ev.AlgIdx, PrefixSums(AlgN, P))),
         Item("sizes", eq(<<ev.Dim, ev.DoF, ev.Rep, ev.Tra, ev.Alg>>, <<Dim(g), DoF(g), Rep(g), MatN(g), AlgN(g)>>)),
-        Item("elem_off", eq(ev.elem_off, PrefixSums(Rep, P))), Item("telem_off", eq(ev.telem_off, PrefixSums(DoF, P))) >>
+        Item("elem_off", eq(ev.elem_off, PrefixSums(Rep, P))), Item("telem_off", eq(ev.telem_off, PrefixSums(DoF, P))),
+        \* element<i>() of a mutable view, of a const view and of a const bundle alias the same segments
+        Item("elem_off_views", IF ev.elem_off_view = PrefixSums(Rep, P) /\ ev.elem_off_cview = PrefixSums(Rep, P) /\ ev.elem_off_const = PrefixSums(Rep, P)
+                                  /\ ev.telem_off_view = PrefixSums(DoF, P) /\ ev.telem_off_cview = PrefixSums(DoF, P) THEN 0 ELSE 2000000000) >>
 \* each Bundle operation returns exactly what the element operations return, placed at the offsets
 BelemItems(ev) ==
   LET \* the property demands EQUALITY with the element-wise operation, not a particular evaluation order: a few unit
@@ -329,7 +332,13 @@ BelemItems(ev) ==
                     VRatio(a, b, [i \in 1..Len(b) |-> FAdd(FMul(FMulInt(UOf(ev), 8), FMax(O, FAbs(b[i]))), FloorOf(ev))])
   IN << Item("compose", same("compose", "e_compose")), Item("inverse", same("inverse", "e_inverse")),
         Item("between", same("between", "e_between")), Item("log", same("log", "e_log")), Item("exp", same("exp", "e_exp")),
-        Item("rplus", same("rplus", "e_rplus")), Item("lminus", same("lminus", "e_lminus")) >>
+        Item("rplus", same("rplus", "e_rplus")), Item("lminus", same("lminus", "e_lminus")),
+        \* operands given as read-only views
+        Item("view_operands", LET m == << same("v_compose", "e_compose"), same("v_between", "e_between"), same("v_lminus", "e_lminus"),
+                                         same("v_rplus", "e_rplus"), same("v_log", "e_log"), same("v_inverse", "e_inverse"), same("v_exp", "e_exp") >>
+                                  RECURSIVE Mx(_)
+                                  Mx(i) == IF i > Len(m) THEN 0 ELSE IF m[i] > Mx(i + 1) THEN m[i] ELSE Mx(i + 1)
+                              IN Mx(1)) >>
 \* element<i>() aliases exactly the i-th segment: a write through it changes that segment and nothing else
 \* (owning bundle, and a Map view of a bundle over a buffer with 4 guard cells holding 777 on each side)
 BWriteItems(ev) ==
